@@ -145,6 +145,21 @@ class FieldsWorld(World):
                 pool = ACCESS
             return {"t": "field", "shape": self._gen_shape(rng), "access": rng.choice(pool)}
         items = [self._gen_coll(rng, depth + 1, racc) for i in range(rng.range(1, 3))]
+        if rng.chance(0.12) and items[0]["t"] in ("dict", "list"):
+            # an array of records that are alike except that one has an extra trailing field
+            import copy
+            rec = items[0]
+            odd = copy.deepcopy(rec)
+            extra = {"t": "field", "shape": ["u", rng.range(1, 3)], "access": rec["items"][0][1]["access"]
+                     if rec["t"] == "dict" and rec["items"][0][1]["t"] == "field" else "nc"}
+            if odd["t"] == "dict":
+                odd["items"].append(["zz_extra", extra])
+            else:
+                odd["items"].append(extra)
+            n_ = rng.range(2, 4)
+            at_ = rng.below(n_)
+            return {"t": "list", "items": [copy.deepcopy(odd) if j == at_ else copy.deepcopy(rec)
+                                           for j in range(n_)]}
         colls = [j for j, it in enumerate(items) if it["t"] in ("dict", "list")]
         if colls and rng.chance(0.25):
             # the user re-uses one collection object for several channels (ch0 = ch1 = chan)
@@ -159,7 +174,19 @@ class FieldsWorld(World):
                 off = rng.below(len(words))
                 return {"t": "dict", "items": [[words[(off + i) % len(words)], it]
                                                for i, it in enumerate(items)]}
-            return {"t": "dict", "items": [[style.format(i), it] for i, it in enumerate(items)]}
+            named = [[style.format(i), it] for i, it in enumerate(items)]
+            if rng.chance(0.1):
+                # a key that spells the path of a sibling's nested field (any string is a name)
+                k0, it0 = named[0]
+                if it0["t"] == "dict":
+                    spelled = f"{k0}.{it0['items'][0][0]}"
+                elif it0["t"] == "list":
+                    spelled = f"{k0}[{len(it0['items']) - 1}]"
+                else:
+                    spelled = f"{k0}.x"
+                named.append([spelled, {"t": "field", "shape": ["u", rng.range(1, 4)],
+                                        "access": it0.get("access", "nc") if it0["t"] == "field" else "nc"}])
+            return {"t": "dict", "items": named}
         return {"t": "list", "items": items}
 
     def gen_config(self, rng, prop):
